@@ -299,13 +299,13 @@ def r3b_model_side_population_init(ctx):
                           "trajectories) disagree with the parameters it reports and saves")
 
 
-def r4b_val_to_tensor(ctx):
+def r4b_val_to_tensor(ctx, rid="C12.R4b"):
     """The reader side of the codec: val_to_tensor may only tensorise and give the declared shape - any re-arrangement of the entries
     (transpose, flip, permute, sort) makes a saved parameter come back different."""
-    ctx.rule("C12.R4b", "val_to_tensor only tensorises and reshapes (every definition of it)", 1)
+    ctx.rule(rid, "val_to_tensor only tensorises and reshapes (every definition of it)", 1)
     fs = [f for f in ctx.ix.iter_funcs() if f.name == "val_to_tensor" and f.cls is None]
     if not fs:
-        raise AnalysisError("C12.R4b", "anchor vanished: val_to_tensor")
+        raise AnalysisError(rid, "anchor vanished: val_to_tensor")
     mods = {m for m in ctx.ix.mods}
     # a module may define the function twice (the later definition wins): look at every definition in the module source
     seen = 0
@@ -324,19 +324,19 @@ def r4b_val_to_tensor(ctx):
                     txt = cn.text(st.value, inline=False)
                     where = (modname, "val_to_tensor")
                     if txt in ALLOWED:
-                        ctx.ok("C12.R4b", where, st, f"`{txt}`: tensorise / declared shape")
+                        ctx.ok(rid, where, st, f"`{txt}`: tensorise / declared shape")
                     elif any(txt.startswith(nc) for nc in NOCOPY):
-                        ctx.violation("C12.R4b", where, st, f"`{U(st)[:70]}` does not copy: a parameter loaded from a numpy array shares its memory with the caller's array, so editing that array "
+                        ctx.violation(rid, where, st, f"`{U(st)[:70]}` does not copy: a parameter loaded from a numpy array shares its memory with the caller's array, so editing that array "
                                       "afterwards changes the model's parameter behind its cached derived values (the saved file no longer matches the model)")
                     elif any(r in txt for r in REARR):
-                        ctx.violation("C12.R4b", where, st, f"`{U(st)[:70]}` re-arranges the entries of a loaded value: a parameter whose stored shape matches (e.g. a square matrix) comes back different from "
+                        ctx.violation(rid, where, st, f"`{U(st)[:70]}` re-arranges the entries of a loaded value: a parameter whose stored shape matches (e.g. a square matrix) comes back different from "
                                       "what was saved")
                     else:
-                        ctx.unknown("C12.R4b", where, st, f"`{U(st)[:70]}` is neither tensorisation nor a reshape to the declared shape")
+                        ctx.unknown(rid, where, st, f"`{U(st)[:70]}` is neither tensorisation nor a reshape to the declared shape")
             rets = [cn.text(r.value, inline=False) for r in statements(node) if isinstance(r, ast.Return) and r.value is not None]
-            ctx.check(rets == ["$0"], "C12.R4b", (modname, "val_to_tensor"), node, "returns the (tensorised, reshaped) value", f"val_to_tensor returns {rets}", construct="return value")
+            ctx.check(rets == ["$0"], rid, (modname, "val_to_tensor"), node, "returns the (tensorised, reshaped) value", f"val_to_tensor returns {rets}", construct="return value")
     if seen == 0:
-        raise AnalysisError("C12.R4b", "anchor vanished: module-level val_to_tensor")
+        raise AnalysisError(rid, "anchor vanished: module-level val_to_tensor")
 
 
 def r4c_tensor_to_list(ctx):
